@@ -31,7 +31,7 @@ def pregen(check):
 
 CFG = {
     "id": "C10",
-    "lean_modules": ["GeomV.C10.Proofs", "GeomV.C10.ProofsSrc", "GeomV.C10.ProofsDatum"] + ["GeomV.C10.Ties." + t for t in TIES],
+    "lean_modules": ["GeomV.C10.Proofs", "GeomV.C10.ProofsSrc", "GeomV.C10.ProofsDatum", "GeomV.C10.ProofsRefine"] + ["GeomV.C10.Ties." + t for t in TIES],
     "pregen": pregen,
     "exe": "geomv_c10",
     "go_cmd": "c10",
@@ -44,6 +44,7 @@ CFG = {
     ]] + [T + "tie_" + t for t in TIES] + [T + "tie_body_" + t for t in CTORS] + [T + n for n in [
         "C10_src_init_total", "C10_src_init_idempotent", "C10_src_init_frame",
         "C10_datum_frame", "C10_datum_pure", "C10_datum_history",
+        "C10_mem_refines_partial", "C10_mem_refines_nil",
     ]],
     "trusted_base": [
         "Lean 4.33.0 kernel; axioms of every theorem printed by #print axioms must be within {propext, Classical.choice, Quot.sound}",
